@@ -132,3 +132,37 @@ def gen_conc_free(seed, idx):
             steps.append({"op": "par", "free": True, "ops": ops})
     steps.append({"op": "drain", "n": 12})
     return {"name": f"conc-free-{seed}-{idx}", "cfg": {}, "steps": steps, "complete": True}
+
+
+def gen_conc_recycle(seed, idx):
+    """A request parked between its key-manager lookup and the shard mutex while the key's last hold ends, its manager
+    is freed and handed out again for ANOTHER key (managers are recycled through the ring LockDB.freeLockManagers, refilled
+    eight at a time: a freed manager comes back within a dozen or two first requests of fresh keys): the parked request
+    must notice (key re-check under the mutex) and start over.  `hold` keeps actor 0 at its first yield point
+    (lock.mgr.got / unlock.mgr.got) until the sweepers of the tick and the other requests have finished."""
+    rng = random.Random(seed * 48271 % (2**31) + idx * 11 + 1)
+    k1 = rng.choice([1, 2, 3])
+    holder = rng.choice([1, 2, 3])
+    x = rng.choice([1, 2, 3])
+    L = lambda **kw: dict({"op": "lock", "conn": 1, "db": 0, "key": k1, "lid": holder, "flag": 0, "tf": 0, "ef": 0, "to": 0, "ex": 30, "cnt": 0, "rc": 0}, **kw)
+    U = lambda **kw: dict({"op": "unlock", "conn": 1, "db": 0, "key": k1, "lid": holder, "flag": 0, "tf": 0, "ef": 0, "to": 0, "ex": 0, "cnt": 0, "rc": 0}, **kw)
+    steps = [L(ex=1), {"op": "tick", "n": 1}]                    # K1's Lock record leaves the expiry wheel with the NEXT tick
+    if rng.random() < 0.6:
+        parked = U(conn=2, lid=x, flag=rng.choice([0, 0, 0, 1, 2]))                                   # parked unlock addressed to K1
+    else:
+        parked = L(conn=2, lid=x if x != holder else 9, to=rng.choice([0, 3]), ex=30)                 # parked lock of K1
+    ops = [parked]
+    if rng.random() < 0.6:
+        ops.append(U(conn=1))                                    # the holder releases K1 (else the hold expires with the tick)
+    ops.append({"op": "tick"})
+    fresh = rng.sample(range(100, 400), rng.randint(10, 26))
+    for k in fresh:
+        ops.append(L(conn=3, key=k, lid=x, ex=30, cnt=rng.choice([0, 0, 1])))
+    sched = [0] * 400 if rng.random() < 0.7 else [rng.randint(0, 3) for _ in range(200)]
+    steps.append({"op": "par", "ops": ops, "hold": [0], "sched": sched})
+    steps.append({"op": "tick", "n": 1})
+    for k in rng.sample(fresh, min(len(fresh), 6)):
+        steps.append(U(conn=3, key=k, lid=x))                    # the owner's own unlocks must still work, once each
+    steps.append(L(conn=4, key=fresh[0], lid=77, to=0, ex=5))
+    steps.append({"op": "drain", "n": 12})
+    return {"name": f"conc-recycle-{seed}-{idx}", "cfg": {}, "steps": steps, "complete": True}
